@@ -465,6 +465,18 @@ u_history(uint64_t idx, void *arg)
                     next++;
                 }
             }
+            if ((i % 6) == 4) {
+                /* a second buffer is used in between */
+                static unsigned char bymem[4];
+                ByteBuffer by;
+                unsigned char in2[2] = { (unsigned char)(next * 3u), (unsigned char)(next * 7u + 1u) }, out2[2] = { 0, 0 };
+                int ok = byte_buffer_space(&by, bymem, sizeof bymem) == 0 && byte_buffer_add(&by, in2, 2) == 0
+                         && byte_buffer_consume(&by, out2, 1) == 0 && byte_buffer_consume_at_most(&by, out2 + 1, 3) == 1;
+                if (!ok || out2[0] != in2[0] || out2[1] != in2[1] || by.offset != 2 || by.used != 2 || by.size != 4)
+                    vh_fail("second-buffer", "op=bystander", "history step %zu: a second buffer used in between: got %02x %02x expected %02x "
+                            "%02x, offset=%zu used=%zu", i, out2[0], out2[1], in2[0], in2[1], by.offset, by.used);
+                VH_COUNT("history: second buffer used in between");
+            }
             add_from_self = 0;
             if (op == OP_ADD && n > 0 && n <= m.used && n <= m.size - m.used && vh_chance(&r, 1, 3)) {
                 memcpy(src, m.img, n);
